@@ -14,13 +14,20 @@ from ..core import run_section
 
 MODULE = 'KdVerif.Props.C15'
 NAMESPACE = 'KdVerif.C15'
-TRUSTED = ['Model/Callstacks.insertImage / lookupAll are tied to the source text of insert_image / the frame loop of '
-           'feed_generator by translation (tools/gen_pyir.py -> Gen/PyIRCs, source_is_expected_ir, '
-           'insert_image_ir_eq_model, frame_loop_ir_eq_model); trusted for that: the translator and the interpreter '
-           'Model/PyIRCs (section callstacks-ir tests them against CPython)',
+TRUSTED = ['Model/Callstacks.insertImage / lookupAll / step / feedFrom (the whole feed_generator: trace loop, isinstance dispatch, '
+           'frame loop, yield, self.insert_image calls) and "a request starts from empty lists" are tied to the source text of '
+           'callstacks_parser.py (__init__, insert_image, feed_generator) and of PyKdebugParser.callstacks by translation '
+           '(tools/gen_pyir.py -> Gen/PyIRCs, source_is_expected_ir, insert_image_ir_eq_model, frame_loop_ir_eq_model, '
+           'feed_generator_ir_eq_model, callstacks_request_ir_eq_model); trusted for that: the translator and the interpreter '
+           'Model/PyIRCs (sections callstacks-ir, feed-generator-ir, request-ir, streams-ir, requests-ir test them against '
+           'CPython)',
+           'the trace objects feed_generator dispatches on (PerfEvent.ktraces / cs_frames, DyldUuidMapA.load_addr / uuid, '
+           'DyldLaunchExecutable.uuid_map_a) are modelled by PyIRCs.Trace; which object a window becomes (handle_event, the '
+           'dyld handlers) stays hand-modelled (Model/Callstacks.itemOf / csFrames / sortByAddr, PyIRCs.traceOf), tied by the '
+           'sections streams / requests',
            'bisect.bisect (C implementation) modelled by Model/Callstacks.bisect (lo/hi loop on an arbitrary list), '
            'tied by the correspondence section `bisect`',
-           'list.insert, `in`, sorted(key=) modelled by pyInsert / List membership / a stable insertion sort',
+           'list.insert, list.clear, `in`, sorted(key=) modelled by pyInsert / [] / List membership / a stable insertion sort',
            'uuid.UUID(bytes=…) treated as the identity on 16 bytes',
            'the stream of windows handed to the handlers is Model/Pairing (C04); which handler a window gets is '
            'decided by the code name of its first record (Model/Callstacks.itemOf), tied by section `streams`']
@@ -600,21 +607,268 @@ def oracle_ir(case, got):
     return None
 
 
+# ---- the whole feed_generator / PyKdebugParser.callstacks on hand-made trace objects
+
+def gen_feed_case(rng, request=False):
+    """Trace objects for CallstacksParser.feed_generator: image announcements over a small pool (descending runs, repeats,
+    adjacent / extreme addresses), launches (sorted or not, with repeats), samples with frames below / at / above the
+    addresses, samples whose cs_frames is None, other traces; ktraces with SEVERAL records of different time / thread.
+    `lists`: what the two lists hold at the start (empty, a valid table, or — feed only — lists of unequal length)."""
+    base = rng.choice([0, 1, 0x1000, 0x100000000, rng.randrange(1 << 40), M64 - 0x2000])
+    pool = sorted({min(base + d, M64) for d in (0, 1, 2, 0x10, 0x1000)} | {rng.randrange(1 << 64), 0, M64})
+    uid = lambda: bytes(rng.randrange(256) for _ in range(rng.choice([1, 2]))).hex()   # noqa: E731
+    n = [0]
+
+    def kts():
+        out = []
+        for _ in range(rng.choice([1, 2, 2, 3])):
+            n[0] += 1
+            out.append([n[0] * 16 + rng.randrange(16), rng.choice([7, 8, 9, 0x101, n[0] + 0x200])])
+        return out
+
+    def frames():
+        out = []
+        for _ in range(rng.randrange(0, 7)):
+            a = rng.choice(pool)
+            out.append(max(0, min(M64, a + rng.choice([-1, 0, 0, 1, 7, rng.randrange(1 << 20)]))))
+        return out
+
+    traces = []
+    if rng.random() < 0.5:
+        traces.append(['s', kts(), frames()])                       # a sample before anything is announced
+    desc = sorted(rng.sample(pool, rng.randrange(0, len(pool))), reverse=True)
+    if rng.random() < 0.5:
+        traces += [['i', a, uid()] for a in desc]                   # a descending run
+    for _ in range(rng.randrange(0, 9)):
+        x = rng.random()
+        if x < 0.35:
+            traces.append(['i', rng.choice(pool), uid()])
+        elif x < 0.65:
+            traces.append(['s', kts(), frames()])
+        elif x < 0.73:
+            traces.append(['s', kts(), None])
+        elif x < 0.88:
+            imgs = [[rng.choice(pool), uid()] for _ in range(rng.randrange(0, 5))]
+            if rng.random() < 0.6:
+                imgs.sort(key=lambda p: p[0])
+            traces.append(['l', imgs])
+        else:
+            traces.append(['o'])
+    if rng.random() < 0.7:
+        probe = []
+        for a in rng.sample(pool, min(len(pool), 3)):
+            probe += [max(a - 1, 0), a, min(a + 1, M64)]
+        traces.append(['s', kts(), probe])
+    if rng.random() < 0.02:
+        traces.append(['s', [], frames()])                          # a PerfEvent without records: ktraces[0] raises
+    y = rng.random()
+    if y < (0.35 if request else 0.65):
+        lists = [[], []]
+    elif y < (1.0 if request else 0.88):
+        have = sorted(rng.sample(pool, rng.randrange(1, 4))) if rng.random() < 0.7 else \
+            sorted({max(0, f - 1) for t in traces if t[0] == 's' and t[2] for f in t[2][:2]} or {3})
+        lists = [have, [uid() for _ in have]]
+    else:
+        have = sorted(rng.sample(pool, rng.randrange(1, 4)))
+        lists = [have, [uid() for _ in have[:rng.randrange(0, len(have))]]]
+    case = {'lists': lists, 'traces': traces}
+    if request:
+        case['codes'] = rng.choice([None, None, {'1': 'X'}])
+    return case
+
+
+def _trace_text(t):
+    if t[0] == 'o':
+        return 'o'
+    if t[0] == 'i':
+        return 'i:%d:%s' % (t[1], t[2])
+    if t[0] == 'l':
+        return 'l:' + (','.join('%d.%s' % (a, u) for a, u in t[1]) or '-')
+    fr = 'N' if t[2] is None else (','.join(str(f) for f in t[2]) or '-')
+    return 's:%s:%s' % (','.join('%d.%d' % (a, b) for a, b in t[1]) or '-', fr)
+
+
+def _lists_text(lists):
+    return '%s|%s' % (','.join(str(a) for a in lists[0]) or '-', ','.join(lists[1]) or '-')
+
+
+def line_feed(case):
+    return 'csfeed %s %s' % (_lists_text(case['lists']), ';'.join(_trace_text(t) for t in case['traces']) or '-')
+
+
+def line_request(case):
+    return 'csreq %s %s' % (_lists_text(case['lists']), ';'.join(_trace_text(t) for t in case['traces']) or '-')
+
+
+def trace_objects(case):
+    """The real classes of trace_handlers (bytes stand for the UUID objects: they are only stored)."""
+    import types
+    from .. import impl  # noqa: F401
+    from pykdebugparser.trace_handlers.dyld import (DyldLaunchExecutable, DyldUuidMapA, DyldUuidMapB,
+                                                    DyldUuidSharedCacheA)
+    from pykdebugparser.trace_handlers.perf import PerfEvent, PerfThdData
+    out = []
+    for i, t in enumerate(case['traces']):
+        if t[0] == 's':
+            out.append(PerfEvent(ktraces=[types.SimpleNamespace(timestamp=a, tid=b) for a, b in t[1]], sample_what=[],
+                                 actionid=0, cs_frames=None if t[2] is None else list(t[2])))
+        elif t[0] == 'i':
+            out.append(DyldUuidMapA(ktraces=[], uuid=bytes.fromhex(t[2]), load_addr=t[1], fsid=0))
+        elif t[0] == 'l':
+            imgs = [(DyldUuidSharedCacheA if j % 2 else DyldUuidMapA)(ktraces=[], uuid=bytes.fromhex(u), load_addr=a, fsid=0)
+                    for j, (a, u) in enumerate(t[1])]
+            out.append(DyldLaunchExecutable(ktraces=[], main_executable_mh=0, uuid_map_a=imgs))
+        else:
+            out.append([DyldUuidMapB(ktraces=[], fid_objno=1, fid_generation=2),
+                        DyldUuidSharedCacheA(ktraces=[], uuid=b'\x01', load_addr=5, fsid=0),
+                        PerfThdData(ktraces=[], pid=1, tid=2, dq_addr=3, runmode=[])][i % 3])
+    return out
+
+
+def _show_elem(x):
+    return x.hex() if isinstance(x, (bytes, bytearray)) else str(x)
+
+
+def _show_cs(c):
+    fr = ','.join(str(f.address) if f.uuid is None and f.offset is None
+                  else '%d:%s:%d' % (f.address, _show_elem(f.uuid), f.offset) for f in c.frames)
+    return '%d/%d/%s' % (c.timestamp, c.tid, fr)
+
+
+def _consume(gen, addrs, uuids):
+    got = []
+    try:
+        for c in gen:
+            got.append(_show_cs(c))
+    except Exception as e:
+        return 'err %s after %s' % (core.err_name(e), ';'.join(got) or '-')
+    return 'ok %s %s|%s' % (';'.join(got) or '-', ','.join(_show_elem(a) for a in addrs) or '-',
+                            ','.join(_show_elem(u) for u in uuids) or '-')
+
+
+def impl_feed(case):
+    """The real CallstacksParser.feed_generator on two list objects, over real trace objects, consumed lazily."""
+    from .. import impl  # noqa: F401
+    from pykdebugparser.callstacks_parser import CallstacksParser
+    addrs, uuids = list(case['lists'][0]), [bytes.fromhex(u) for u in case['lists'][1]]
+    return _consume(CallstacksParser(addrs, uuids).feed_generator(iter(trace_objects(case))), addrs, uuids)
+
+
+def impl_request(case):
+    """The real PyKdebugParser.callstacks on an object whose two lists hold what an earlier request left; `traces` is
+    replaced ON THE INSTANCE by a function that hands out the trace objects (and records its arguments)."""
+    from .. import impl  # noqa: F401
+    from pykdebugparser.pykdebugparser import PyKdebugParser
+    p = PyKdebugParser()
+    p.dyld_addresses.extend(case['lists'][0])
+    p.dyld_uuids.extend(bytes.fromhex(u) for u in case['lists'][1])
+    objs = trace_objects(case)
+    seen = []
+
+    def traces(kdebug, trace_codes=None):
+        seen.append((kdebug, trace_codes))
+        return iter(objs)
+    p.traces = traces
+    stream = io.BytesIO(b'')
+    codes = case.get('codes')
+    g = p.callstacks(stream, codes) if codes is not None else p.callstacks(stream)
+    ans = _consume(g, p.dyld_addresses, p.dyld_uuids)
+    if len(seen) != 1 or seen[0][0] is not stream or seen[0][1] is not codes:
+        return 'err traces-not-called-once-with-(kdebug, trace_codes)'
+    return ans
+
+
+def expected_feed(case, from_empty):
+    """What the property demands, from the case alone (no bisect): every frame of a qualifying sample goes to the FIRST
+    identity of the greatest load address announced so far (or present at the start) that is not above it; the callstack is
+    stamped by the sample's FIRST record; the lists end as the sorted addresses with their first identities.
+    None: the input is outside the property (lists of unequal length at the start, a sample without records)."""
+    addrs, uuids = ([], []) if from_empty else case['lists']
+    if len(addrs) != len(uuids) or any(a >= b for a, b in zip(addrs, addrs[1:])):
+        return None
+    first = dict(zip(addrs, uuids))
+    out = []
+    for t in case['traces']:
+        if t[0] == 'i':
+            first.setdefault(t[1], t[2])
+        elif t[0] == 'l':
+            for a, u in t[1]:
+                first.setdefault(a, u)
+        elif t[0] == 's' and t[2] is not None:
+            if not t[1]:
+                return None
+            fr = []
+            for f in t[2]:
+                below = [a for a in first if a <= f]
+                fr.append(str(f) if not below else '%d:%s:%d' % (f, first[max(below)], f - max(below)))
+            out.append('%d/%d/%s' % (t[1][0][0], t[1][0][1], ','.join(fr)))
+    keys = sorted(first)
+    return out, ','.join(str(a) for a in keys) or '-', ','.join(first[a] for a in keys) or '-'
+
+
+def _oracle_feed(case, got, from_empty, what):
+    exp = expected_feed(case, from_empty)
+    if exp is None:
+        return None
+    cs, addrs, uuids = exp
+    if not got.startswith('ok '):
+        return ('callstack:raises', '%s raised: %s (traces %s, lists %s)' % (what, got, case['traces'], case['lists']))
+    body, _, lists = got[3:].rpartition(' ')
+    have = [] if body == '-' else body.split(';')
+    if len(have) != len(cs):
+        return ('callstack:count', '%s: %d callstacks for %d samples with frames (traces %s)'
+                % (what, len(have), len(cs), case['traces']))
+    for i, (h, e) in enumerate(zip(have, cs)):
+        if h.split('/')[:2] != e.split('/')[:2]:
+            return ('callstack:stamp', '%s: callstack %d is stamped %s, the first record of its sample is %s (traces %s)'
+                    % (what, i, '/'.join(h.split('/')[:2]), '/'.join(e.split('/')[:2]), case['traces']))
+        if h != e:
+            sig = 'callstack:stale-images' if (from_empty and case['lists'][0]) else 'callstack:wrong-image'
+            return (sig, '%s: callstack %d is %s, expected %s (lists at the start %s, traces %s)'
+                    % (what, i, h, e, case['lists'], case['traces']))
+    if lists != addrs + '|' + uuids:
+        return ('callstack:image-lists', '%s: the two lists end as %s, the announced addresses with their first identities are '
+                '%s|%s (lists at the start %s, traces %s)' % (what, lists, addrs, uuids, case['lists'], case['traces']))
+    return None
+
+
+def oracle_feed(case, got):
+    return _oracle_feed(case, got, False, 'CallstacksParser(lists).feed_generator(traces)')
+
+
+def oracle_request(case, got):
+    if got.startswith('err traces-not-called'):
+        return ('callstack:request-arguments', 'callstacks(kdebug, trace_codes) did not call self.traces(kdebug, trace_codes) '
+                'exactly once with its own two arguments')
+    return _oracle_feed(case, got, True, 'PyKdebugParser.callstacks() on an object holding the images of an earlier request')
+
+
+def kind_feed(case, got):
+    if not got.startswith('ok'):
+        return 'raises'
+    return ('launch+' if any(t[0] == 'l' and t[1] for t in case['traces']) else '') + \
+        ('attributed' if ':' in got.split(' ')[1] else 'unattributed')
+
+
 def translation_tie(rep):
     ans = core.drive(['csircheck'])[0]
     if ans == 'same':
-        rep.notes.append('translation tie: Gen/PyIRCs (from callstacks_parser.py) = Spec/PyIRCsExpected')
+        rep.notes.append('translation tie: Gen/PyIRCs (from callstacks_parser.py and PyKdebugParser.callstacks) = '
+                         'Spec/PyIRCsExpected')
         return True
     rep.broken.append('theorem source_is_expected_ir: the IR that tools/gen_pyir.py translates from the source text of '
-                      'callstacks_parser.py (insert_image, frame loop of feed_generator) is not the one of '
-                      'Spec/PyIRCsExpected that insert_image_ir_eq_model / frame_loop_ir_eq_model are proved for (%s)' % ans)
+                      'callstacks_parser.py (__init__, insert_image, the whole feed_generator and its frame loop) and of '
+                      'PyKdebugParser.callstacks is not the one of Spec/PyIRCsExpected that insert_image_ir_eq_model / '
+                      'frame_loop_ir_eq_model / feed_generator_ir_eq_model / callstacks_request_ir_eq_model are proved for (%s)'
+                      % ans)
     return 'unsupported' not in ans
 
 
 def correspondence(rep, rng, tier):
     thorough = tier != 'quick'
     ctx()
-    if translation_tie(rep):
+    tie = translation_tie(rep)
+    if tie:
         run_section(rep, 'callstacks-ir', [gen_ir_case(rng) for _ in range(20000 if thorough else 1500)],
                     line_ir, impl_ir, oracle_ir, skip_fn=lambda m: m == 'unsupported',
                     nontrivial_fn=lambda c, got: got.startswith('ok') and ':' in got.split('|')[-1],
@@ -625,6 +879,30 @@ def correspondence(rep, rng, tier):
                          'below / at / above them; non-trivial = at least one attributed frame')
     else:
         rep.notes.append('section callstacks-ir skipped: the translation contains .unsupported nodes')
+    # the whole feed_generator / callstacks(): the oracles are code-only, so the sections run (and search) even when the
+    # translation left the subset (the driver then answers `unsupported`: counted, not compared)
+    run_section(rep, 'feed-generator-ir', [gen_feed_case(rng) for _ in range(20000 if thorough else 1500)],
+                line_feed, impl_feed, oracle_feed, skip_fn=lambda m: m == 'unsupported',
+                nontrivial_fn=lambda c, got: got.startswith('ok') and ':' in got.split(' ')[1],
+                kind_fn=kind_feed,
+                rule='the WHOLE feed_generator GENERATED from callstacks_parser.py (Gen/PyIRCs.feedGenerator, its '
+                     'self.insert_image calls answered by the generated insert_image) run by the interpreter of Model/PyIRCs '
+                     '(`csfeed`) vs. the real CallstacksParser(lists).feed_generator(iter(trace objects)) consumed lazily: real '
+                     'PerfEvent (several ktraces of different time / thread; cs_frames a list or None) / DyldUuidMapA / '
+                     'DyldLaunchExecutable / other dataclass instances; lists empty, a valid table, or of unequal length '
+                     '(IndexError after the callstacks delivered before it); compared: callstacks in order, final lists, '
+                     'exception; non-trivial = at least one attributed frame')
+    run_section(rep, 'request-ir', [gen_feed_case(rng, request=True) for _ in range(8000 if thorough else 600)],
+                line_request, impl_request, oracle_request, skip_fn=lambda m: m == 'unsupported',
+                nontrivial_fn=lambda c, got: got.startswith('ok') and ':' in got.split(' ')[1] and bool(c['lists'][0]),
+                kind_fn=lambda c, got: ('stale-lists-' if c['lists'][0] else 'empty-lists-') + kind_feed(c, got),
+                rule='PyKdebugParser.callstacks GENERATED from pykdebugparser.py (Gen/PyIRCs.callstacks + __init__ + '
+                     'feedGenerator, `csreq`) vs. the real PyKdebugParser().callstacks(kdebug[, trace_codes]) on an object '
+                     'whose two lists hold the images of an earlier request, self.traces replaced on the instance by a '
+                     'function handing out real trace objects; compared: callstacks, the OBJECT\'s two lists afterwards; '
+                     'non-trivial = stale lists at the start and an attributed frame')
+    if tie:
+        rep.mirror = {'cs': 'csgen'}
     run_section(rep, 'bisect', gen_bisect(rng, 60000 if thorough else 3000), line_bisect, impl_bisect, oracle_bisect,
                 nontrivial_fn=lambda c, got: len(c['l']) > 1,
                 kind_fn=lambda c, got: 'sorted' if all(a <= b for a, b in zip(c['l'], c['l'][1:])) else 'unsorted',
@@ -692,8 +970,11 @@ def replay(path):
             print(f'VIOLATION property=C15 replay={path}')
             return 1
         return 0
+    sec = sec[:-3] if sec in ('streams-ir', 'requests-ir') else sec
     line_fn, impl_fn, oracle_fn = {'bisect': (line_bisect, impl_bisect, oracle_bisect),
                                    'callstacks-ir': (line_ir, impl_ir, oracle_ir),
+                                   'feed-generator-ir': (line_feed, impl_feed, oracle_feed),
+                                   'request-ir': (line_request, impl_request, oracle_request),
                                    'streams': (line_stream, impl_stream, oracle_stream),
                                    'requests': (line_requests, impl_requests, oracle_requests)}[sec]
     try:
@@ -716,15 +997,24 @@ LEVEL_TEXT = ('Lean theorems over the model of CallstacksParser / handle_event /
               'first_identity_kept, frames_spec, callstacks_spec); bisect is modelled as the lo/hi loop on arbitrary '
               'lists and proved to be the upper bound on sorted ones; the model is tied to the code by differential '
               'runs through TracesParser + CallstacksParser and through PyKdebugParser.callstacks on v2 dumps.  '
-              'TRANSLATION TIE: the source text of insert_image and of the frame loop of feed_generator is translated on '
-              'every run (tools/gen_pyir.py, pure ast) into a deep embedding of the Python subset they use '
-              '(Model/PyIRCs, bisect as a primitive = the modelled bisect); source_is_expected_ir: the generated blocks '
-              'are those of Spec/PyIRCsExpected; insert_image_ir_eq_model / frame_loop_ir_eq_model: interpreted on ANY '
-              'pair of lists they are Callstacks.insertImage / lookupAll (same lists, same frames, same exceptions).')
-LEVEL_NOTE = ('Trusted: Lean kernel, correspondence harness, reflected SamplerAction enum; bisect/list.insert/sorted/'
+              'TRANSLATION TIE: the source text of CallstacksParser.__init__, insert_image and the WHOLE feed_generator '
+              '(`for trace in generator`, the three-way isinstance dispatch with `and … is not None`, the frame loop, the '
+              'yield of Callstack(ktraces[0].timestamp, ktraces[0].tid, frames), the self.insert_image calls, the launch '
+              'loop) and of PyKdebugParser.callstacks (two clear() calls, the construction on exactly the two list objects, '
+              'the returned generator over self.traces(kdebug, trace_codes)) is translated on every run (tools/gen_pyir.py, '
+              'pure ast) into a deep embedding of the Python subset they use (Model/PyIRCs, bisect as a primitive = the '
+              'modelled bisect, a generator = values yielded + outcome); source_is_expected_ir: the generated terms are those '
+              'of Spec/PyIRCsExpected; insert_image_ir_eq_model / frame_loop_ir_eq_model / feed_generator_ir_eq_model: '
+              'interpreted on ANY pair of lists and ANY list of traces they are Callstacks.insertImage / lookupAll / feedFrom '
+              '(same callstacks in the same order, same final lists, same exception after the same callstacks); '
+              'callstacks_request_ir_eq_model / callstacks_request_is_feed: a request, whatever the lists held, is the '
+              'translated feed_generator run from EMPTY lists = Callstacks.feed of its own traces.')
+LEVEL_NOTE = ('Trusted: Lean kernel, correspondence harness, reflected SamplerAction enum; bisect/list.insert/list.clear/sorted/'
               'uuid.UUID are modelled, not verified; for the translation tie the translator tools/gen_pyir.py and the '
-              'interpreter Model/PyIRCs (tested against CPython by the section callstacks-ir); the isinstance dispatch and '
-              'the yield of feed_generator, handle_event and the dyld handlers stay hand-modelled (tied by sections '
-              'streams / requests). Windows come from the pairing model (C04).')
+              'interpreter Model/PyIRCs (tested against CPython by the sections callstacks-ir, feed-generator-ir, request-ir '
+              'on real trace objects and, mirrored through `csgen`, streams-ir / requests-ir on whole record streams); '
+              'handle_event and the dyld handlers (which trace object a window becomes), TracesParser / self.traces() as the '
+              'source of the traces stay hand-modelled (tied by sections streams / requests). Windows come from the pairing '
+              'model (C04).')
 TECHNIQUE = ('Lean 4 proof (invariant + refinement to a declarative attribution) + translation validation of '
-             'insert_image / the frame loop + differential correspondence')
+             'CallstacksParser (whole) and PyKdebugParser.callstacks + differential correspondence')
